@@ -100,6 +100,7 @@ def stateless (L : Libm) (e : C19.Expr F64) (ctx : Ctx) : Bytes :=
 inductive Var where
   | named (n : Bytes)
   | idx (i : Int)
+  deriving DecidableEq
 
 def Var.text (c : Ctx) : Var → Bytes
   | .named n => c.getKey n
